@@ -120,4 +120,41 @@ example : (crun {} [.tcpBind EADDRINUSE, .tcpConnect 0 0, .io 0]).cbs = [(0, EAD
     (crun {} [.tcpBind 0, .tcpConnect 0 EINPROGRESS, .io 0]).cbs = [(0, 0)] ∧
     (crun {} [.tcpBind 0, .tcpConnect 0 EINPROGRESS, .io 0]).connectCalls = 1 := by decide
 
+/-- `streamConnect` is `connPre`, an empty callback, `connPost` -/
+theorem streamConnect_eq_pre_post (c : Conn) (so : Int) :
+    streamConnect c so = connPost (connPre c so).1 (connPre c so).2 := by
+  unfold streamConnect connPre connPost
+  by_cases hc : c.closing = true
+  · simp [hc]
+  · cases hr : c.connectReq with
+    | none => simp [hc]
+    | some req =>
+      simp only [hc]
+      by_cases hd : c.delayedError = 0 <;> simp [hd] <;> split <;> simp_all
+
+/-- **retry from the failure callback**: when a connect fails and the user's callback re-submits a connect on the
+same handle (tcp or pipe), the new request is registered with POLLOUT armed and is still pending with POLLOUT
+armed after `uv__stream_connect` returns — the stop of POLLOUT for the failed attempt happens *before* the
+callback, so it cannot cancel the retry's interest; hence the retry's completion will be seen -/
+theorem connect_retry_from_failure_callback_stays_armed (c : Conn) (req : Nat) (so r : Int) (e : Int)
+    (hc : c.closing = false) (hr : c.connectReq = some req) (hd : c.delayedError = 0)
+    (he : (connPre c so).2 = some e) (hneg : e < 0) (hr' : r = 0 ∨ r = EINPROGRESS) :
+    let c1 := (connPre c so).1
+    (let c2 := (tcpConnect c1 0 r).1
+     (tcpConnect c1 0 r).2 = 0 ∧ (connPost c2 (some e)).pollout = true ∧ (connPost c2 (some e)).connectReq = some c.nextReq) ∧
+    (let c2 := (pipeConnect c1 0 0 r).1
+     (pipeConnect c1 0 0 r).2 = 0 ∧ (connPost c2 (some e)).pollout = true ∧ (connPost c2 (some e)).connectReq = some c.nextReq) := by
+  have hso : so ≠ EINPROGRESS ∧ e = so := by
+    simp [connPre, hc, hr, hd] at he
+    by_cases h : so = EINPROGRESS <;> simp_all
+  obtain ⟨hne, rfl⟩ := hso
+  have h1 : (connPre c e).1 = { c with connectReq := none, fed := false, cbs := c.cbs ++ [(req, e)], pollout := false } := by
+    simp [connPre, hc, hr, hd, hne, hneg]
+  rw [h1]
+  rcases hr' with rfl | rfl <;>
+    simp [tcpConnect, pipeConnect, connPost, hc, hd, hneg, flushWrites, EINPROGRESS]
+
+example : (connPost (tcpConnect (connPre (tcpConnect {} 0 EINPROGRESS).1 ECONNREFUSED).1 0 EINPROGRESS).1 (some ECONNREFUSED)).pollout = true ∧
+    (connPost (tcpConnect (connPre (tcpConnect {} 0 EINPROGRESS).1 ECONNREFUSED).1 0 EINPROGRESS).1 (some ECONNREFUSED)).connectReq = some 1 := by decide
+
 end UvModel.Accept
